@@ -2,7 +2,8 @@ import Ysshra.Util
 /-
 Model of the per-code condition variables of `shimagent.Server` (`Wait` / `Broadcast`) driven by
 `yubiagent.ServeAgent`, which broadcasts the first byte of every received request before
-dispatching it.  `n` is the size of the table, `inRange` the comparison guarding every access.
+dispatching it — including wait requests themselves, whose first byte is the wait code 35.
+`n` is the size of the table, `inRange` the comparison guarding every access.
 -/
 namespace Ysshra.Cond
 
@@ -14,19 +15,33 @@ def inRange (n : Nat) (c : UInt8) : Bool := c.toNat < n % 256
 /-- waiters registered on a condition variable, oldest first -/
 abbrev State := List (Tid × UInt8)
 
+/-- the message code of a wait request (`AgentMessageWait`) -/
+def waitCode : UInt8 := 35
+
 inductive Event
-  /-- client `t` asks to wait for code `c` (its own wait request has been broadcast already) -/
+  /-- client `t` sends a wait request for code `c` -/
   | wait (t : Tid) (c : UInt8)
-  /-- a request with first byte `c` arrives on any connection -/
+  /-- any other request with first byte `c` arrives on any connection -/
   | request (c : UInt8)
 deriving DecidableEq, Repr
 
-/-- one event: new state and the clients whose `Wait` returns because of it -/
-def step (n : Nat) (s : State) : Event → State × List Tid
-  | .wait t c => if inRange n c then (s ++ [(t, c)], []) else (s, [t])
-  | .request c =>
-    if inRange n c then (s.filter (fun w => w.2 ≠ c), (s.filter (fun w => w.2 = c)).map (·.1))
-    else (s, [])
+/-- first byte of the request frame behind an event -/
+def Event.code : Event → UInt8
+  | .wait _ _ => waitCode
+  | .request c => c
+
+/-- `Broadcast(c)`: new state and the released clients -/
+def broadcast (n : Nat) (s : State) (c : UInt8) : State × List Tid :=
+  if inRange n c then (s.filter (fun w => w.2 ≠ c), (s.filter (fun w => w.2 = c)).map (·.1))
+  else (s, [])
+
+/-- one event: the broadcast of its first byte, then (for a wait request) the registration —
+    or the immediate return when the code is outside the table -/
+def step (n : Nat) (s : State) (e : Event) : State × List Tid :=
+  let (s1, rel) := broadcast n s e.code
+  match e with
+  | .request _ => (s1, rel)
+  | .wait t c => if inRange n c then (s1 ++ [(t, c)], rel) else (s1, rel ++ [t])
 
 /-- run a history; the released clients per event -/
 def run (n : Nat) : State → List Event → State × List (List Tid)
